@@ -27,25 +27,25 @@ ASSUME_COMMON = [
 
 # property -> (engine module, level, quick runs, thorough runs, quick budget s, thorough budget s)
 REGISTRY = {
-    "C02": ("vsim.engines.crashsim", "fault_enumeration", 320, 6000, 100, 900),
-    "C09": ("vsim.engines.crashsim", "fault_enumeration", 240, 4000, 100, 900),
-    "C10": ("vsim.engines.crashsim", "fault_enumeration", 96, 1500, 110, 1200),
-    "C01": ("vsim.engines.rfsim", "exploration", 1500, 40000, 90, 900),
-    "C04": ("vsim.engines.rfsim", "exploration", 1500, 40000, 90, 900),
-    "C05": ("vsim.engines.rfsim", "exploration", 1500, 40000, 90, 900),
-    "C06": ("vsim.engines.rfsim", "exploration", 1200, 30000, 90, 900),
-    "C07": ("vsim.engines.rfsim", "exploration", 1200, 30000, 90, 900),
-    "C08": ("vsim.engines.rfsim", "exploration", 1000, 30000, 90, 900),
-    "C11": ("vsim.engines.rfsim", "exploration", 1000, 30000, 90, 900),
-    "C19": ("vsim.engines.rfsim", "exploration", 1500, 40000, 90, 900),
-    "C12": ("vsim.engines.mdsim", "exploration", 1500, 40000, 90, 900),
-    "C13": ("vsim.engines.mdsim", "exploration", 1500, 40000, 90, 900),
-    "C20": ("vsim.engines.mdsim", "exploration", 800, 20000, 90, 900),
-    "C15": ("vsim.engines.evsim15", "exploration", 1500, 30000, 90, 900),
-    "C16": ("vsim.engines.evsim16", "exploration", 3000, 100000, 90, 900),
-    "C17": ("vsim.engines.evsim17", "fault_enumeration", 400, 8000, 100, 900),
-    "C14": ("vsim.engines.lssim", "exploration", 1500, 40000, 90, 900),
-    "C18": ("vsim.engines.lssim", "exploration", 600, 12000, 90, 900),
+    "C02": ("vsim.engines.crashsim", "fault_enumeration", 1000, 12000, 100, 900),
+    "C09": ("vsim.engines.crashsim", "fault_enumeration", 600, 8000, 110, 900),
+    "C10": ("vsim.engines.crashsim", "fault_enumeration", 300, 3000, 120, 1200),
+    "C01": ("vsim.engines.rfsim", "exploration", 3000, 60000, 100, 900),
+    "C04": ("vsim.engines.rfsim", "exploration", 3000, 60000, 100, 900),
+    "C05": ("vsim.engines.rfsim", "exploration", 3000, 60000, 100, 900),
+    "C06": ("vsim.engines.rfsim", "exploration", 2500, 40000, 100, 900),
+    "C07": ("vsim.engines.rfsim", "exploration", 3000, 50000, 100, 900),
+    "C08": ("vsim.engines.rfsim", "exploration", 2000, 40000, 100, 900),
+    "C11": ("vsim.engines.rfsim", "exploration", 3000, 50000, 100, 900),
+    "C19": ("vsim.engines.rfsim", "exploration", 3000, 60000, 100, 900),
+    "C12": ("vsim.engines.mdsim", "exploration", 2500, 40000, 110, 900),
+    "C13": ("vsim.engines.mdsim", "exploration", 2000, 40000, 110, 900),
+    "C20": ("vsim.engines.mdsim", "exploration", 2500, 40000, 100, 900),
+    "C15": ("vsim.engines.evsim15", "exploration", 10000, 150000, 90, 900),
+    "C16": ("vsim.engines.evsim16", "exploration", 40000, 600000, 90, 900),
+    "C17": ("vsim.engines.evsim17", "fault_enumeration", 2500, 40000, 100, 900),
+    "C14": ("vsim.engines.lssim", "exploration", 20000, 300000, 90, 900),
+    "C18": ("vsim.engines.lssim", "exploration", 6000, 80000, 90, 900),
 }
 
 _RF = ("one run = one seeded history: channel configuration (type cell x rate x cadences x mode, start snapped to a "
